@@ -5,12 +5,16 @@ package main
 import (
 	"bytes"
 	"context"
+	"database/sql"
+	"errors"
 	"fmt"
 	"io"
+	"os"
 	"path/filepath"
 	"sort"
 	"strconv"
 	"strings"
+	"sync"
 	"time"
 
 	"github.com/jdillenkofer/pithos/internal/storage"
@@ -21,6 +25,7 @@ import (
 	sqlMetadataStore "github.com/jdillenkofer/pithos/internal/storage/metadatapart/metadatastore/sql"
 	sqlPartStore "github.com/jdillenkofer/pithos/internal/storage/metadatapart/partstore/sql"
 	"github.com/jdillenkofer/pithos/internal/storage/middlewares/conditional"
+	"github.com/jdillenkofer/pithos/internal/storage/middlewares/corscache"
 )
 
 // C24 — bucket-routed storages are isolated. Case line: <cfg> <ops>   (see coq/Model/Router.v)
@@ -32,6 +37,12 @@ import (
 //         cond  : - | '+'-joined of imE imW imX nmE nmW nmX (If-Match / If-None-Match = source ETag, "*", another ETag)
 //                 us-1 us0 us1 ms-1 ms0 ms1 (If-Unmodified-Since / If-Modified-Since = source Last-Modified second + d seconds)
 //   data "E" is the empty content
+//         cbs,b : create + enable + suspend versioning (the null version is overwritten in place)
+//         cpi,... / upci,... = cp / upc with two more fields  k,writer : another client runs `writer` on the SOURCE key
+//                 (put:<data>:<meta> | mput:<data> | del) at call boundary k of the copy: 1 = before the first source call,
+//                 2 = between the source HeadObject and GetObject, 3 = after GetObject returned (before the bytes are read)
+//         txc=op/op/... | txr=... | txcs=... | txrs=... : the ops (no copies) run inside router.WithTransaction and the callback
+//                 commits / rolls back; the "s" forms stack a delegating middleware (corscache) above the router
 type c24 struct{}
 
 func init() { register("C24", c24{}) }
@@ -41,8 +52,37 @@ func (c24) Parallel() bool { return true }
 // recording double around one real backing storage
 type c24Rec struct {
 	storage.Storage
-	id  int
-	log *[]string
+	id   int
+	log  *[]string
+	hook *c24Hook
+}
+
+// a scripted concurrent writer: fires once, at the k-th call boundary of the running copy on the source bucket
+type c24Hook struct {
+	armed  bool
+	bucket string
+	k      int
+	count  int
+	fire   func()
+}
+
+func (h *c24Hook) boundary(b storage.BucketName) {
+	if h == nil || !h.armed || b.String() != h.bucket {
+		return
+	}
+	h.count++
+	if h.count == h.k {
+		h.armed = false
+		h.fire()
+	}
+}
+
+// the double must not hide the transactional interface of the storage it wraps
+func (r *c24Rec) WithTransaction(ctx context.Context, opts *sql.TxOptions, fn func(ctx context.Context, txStorage storage.Storage) error) error {
+	if ts, ok := r.Storage.(storage.TransactionalStorage); ok {
+		return ts.WithTransaction(ctx, opts, func(ctx context.Context, _ storage.Storage) error { return fn(ctx, r) })
+	}
+	return fn(ctx, r)
 }
 
 func (r *c24Rec) note(m string, b storage.BucketName) {
@@ -62,11 +102,15 @@ func (r *c24Rec) ListBuckets(ctx context.Context) ([]storage.Bucket, error) {
 }
 func (r *c24Rec) HeadObject(ctx context.Context, b storage.BucketName, k storage.ObjectKey, o *storage.HeadObjectOptions) (*storage.Object, error) {
 	r.note("HeadObject", b)
+	r.hook.boundary(b) // boundary 1 of a cross-storage copy
 	return r.Storage.HeadObject(ctx, b, k, o)
 }
 func (r *c24Rec) GetObject(ctx context.Context, b storage.BucketName, k storage.ObjectKey, rg []storage.ByteRange, o *storage.GetObjectOptions) (*storage.Object, []io.ReadCloser, error) {
 	r.note("GetObject", b)
-	return r.Storage.GetObject(ctx, b, k, rg, o)
+	r.hook.boundary(b) // boundary 2: after HeadObject and the preconditions, before the bytes are requested
+	obj, rd, err := r.Storage.GetObject(ctx, b, k, rg, o)
+	r.hook.boundary(b) // boundary 3: GetObject returned, nothing read yet
+	return obj, rd, err
 }
 func (r *c24Rec) PutObject(ctx context.Context, b storage.BucketName, k storage.ObjectKey, ct *string, data io.Reader, ci *storage.ChecksumInput, o *storage.PutObjectOptions) (*storage.PutObjectResult, error) {
 	r.note("PutObject", b)
@@ -79,7 +123,11 @@ func (r *c24Rec) DeleteObject(ctx context.Context, b storage.BucketName, k stora
 func (r *c24Rec) CopyObject(ctx context.Context, sb storage.BucketName, sk storage.ObjectKey, b storage.BucketName, k storage.ObjectKey, o *storage.CopyObjectOptions) (*storage.CopyObjectResult, error) {
 	r.note("CopyObject.src", sb)
 	r.note("CopyObject.dst", b)
-	return r.Storage.CopyObject(ctx, sb, sk, b, k, o)
+	r.hook.boundary(sb) // the storage's own copy is one step: the writer runs before it (k = 1) or after it
+	res, err := r.Storage.CopyObject(ctx, sb, sk, b, k, o)
+	r.hook.boundary(sb)
+	r.hook.boundary(sb)
+	return res, err
 }
 func (r *c24Rec) CreateMultipartUpload(ctx context.Context, b storage.BucketName, k storage.ObjectKey, ct *string, cst *string, o *storage.CreateMultipartUploadOptions) (*storage.InitiateMultipartUploadResult, error) {
 	r.note("CreateMultipartUpload", b)
@@ -101,11 +149,53 @@ func (r *c24Rec) PutBucketVersioningConfiguration(ctx context.Context, b storage
 func (r *c24Rec) UploadPartCopy(ctx context.Context, sb storage.BucketName, sk storage.ObjectKey, b storage.BucketName, k storage.ObjectKey, u storage.UploadId, pn int32, o *storage.UploadPartCopyOptions) (*storage.UploadPartCopyResult, error) {
 	r.note("UploadPartCopy.src", sb)
 	r.note("UploadPartCopy.dst", b)
-	return r.Storage.UploadPartCopy(ctx, sb, sk, b, k, u, pn, o)
+	r.hook.boundary(sb)
+	res, err := r.Storage.UploadPartCopy(ctx, sb, sk, b, k, u, pn, o)
+	r.hook.boundary(sb)
+	r.hook.boundary(sb)
+	return res, err
 }
 func (r *c24Rec) AbortMultipartUpload(ctx context.Context, b storage.BucketName, k storage.ObjectKey, u storage.UploadId) error {
 	r.note("AbortMultipartUpload", b)
 	return r.Storage.AbortMultipartUpload(ctx, b, k, u)
+}
+
+// A fresh, migrated SQLite database.  Running the schema migrations is the dominant cost of a history, so one empty
+// migrated database is built once per process and copied (the real sqlite.OpenDatabase still opens every copy).
+var c24TemplateOnce sync.Once
+var c24TemplateBytes []byte
+
+func c24OpenDB(dir, name string) (database.Database, error) {
+	c24TemplateOnce.Do(func() {
+		tmp, err := os.MkdirTemp("", "c24-template-")
+		if err != nil {
+			return
+		}
+		defer os.RemoveAll(tmp)
+		p := filepath.Join(tmp, "t.db")
+		db, err := sqlite.OpenDatabase(p)
+		if err != nil {
+			return
+		}
+		if st, err := c24NewInstance(db); err != nil || st == nil { // repositories may create tables lazily
+			db.Close()
+			return
+		}
+		db.Close()
+		if _, err := os.Stat(p + "-wal"); err == nil {
+			if fi, _ := os.Stat(p + "-wal"); fi != nil && fi.Size() > 0 {
+				return // not checkpointed: do not risk a partial copy
+			}
+		}
+		c24TemplateBytes, _ = os.ReadFile(p)
+	})
+	p := filepath.Join(dir, name)
+	if len(c24TemplateBytes) > 0 {
+		if err := os.WriteFile(p, c24TemplateBytes, 0o644); err != nil {
+			return nil, err
+		}
+	}
+	return sqlite.OpenDatabase(p)
 }
 
 func c24NewInstance(db database.Database) (storage.Storage, error) {
@@ -196,13 +286,70 @@ func c24View(ctx context.Context, st storage.Storage, b storage.BucketName, k st
 
 // one world = something that executes the operations + a way to observe the backing state
 type c24World struct {
-	target storage.Storage                  // operations go here (router / single reference storage)
+	target storage.Storage                     // operations go here (router / single reference storage)
 	obs    func(bucket string) storage.Storage // observer of the backing storage holding that bucket
-	order  map[string][]string              // bucket/key -> version ids in creation order
+	order  map[string][]string                 // bucket/key -> version ids in creation order
+	hook   *c24Hook                            // router world: the interleaving hook shared with the recording doubles
+	first  bool                                // reference world: the concurrent writer runs BEFORE the copy (else after)
 }
 
+// the concurrent writer of an interleaved copy: put:<data>:<meta> | mput:<data> | del on the source key, as another client
+func (w *c24World) writer(_ context.Context, b, k, spec string) {
+	ctx := context.Background()
+	p := strings.Split(spec, ":")
+	st := w.obs(b)
+	bn, kn := storage.MustNewBucketName(b), storage.MustNewObjectKey(k)
+	switch p[0] {
+	case "put":
+		ct, o := c24PutOpts(p[2])
+		st.PutObject(ctx, bn, kn, ct, strings.NewReader(c24Content(p[1])), nil, o)
+	case "mput":
+		if up, err := st.CreateMultipartUpload(ctx, bn, kn, nil, nil, nil); err == nil {
+			if _, err = st.UploadPart(ctx, bn, kn, up.UploadId, 1, strings.NewReader(c24Content(p[1])), nil); err == nil {
+				st.CompleteMultipartUpload(ctx, bn, kn, up.UploadId, nil, nil)
+			}
+		}
+	case "del":
+		st.DeleteObject(ctx, bn, kn, nil)
+	}
+}
+
+// interleave runs `copy` with the writer at boundary k: through the hook (router world) or in the order the reference world stands for
+func (w *c24World) interleave(ctx context.Context, a []string, copy func()) {
+	k, _ := strconv.Atoi(a[8])
+	fired := false
+	fire := func() {
+		if !fired {
+			fired = true
+			w.writer(ctx, a[1], a[2], a[9])
+		}
+	}
+	switch {
+	case w.hook != nil:
+		*w.hook = c24Hook{armed: true, bucket: a[1], k: k, fire: fire}
+		copy()
+		w.hook.armed = false
+		fire() // the copy ended before reaching the boundary: the writer simply comes afterwards
+	case k == 1 || w.first:
+		fire()
+		copy()
+	default:
+		copy()
+		fire()
+	}
+	w.learn(ctx, a[1], a[2])
+}
+
+
 // learn new version ids of a key (creation order = order of first sighting; one new version per op)
-func (w *c24World) learn(ctx context.Context, b, k string) {
+func (w *c24World) learn(_ context.Context, b, k string) {
+	ctx := context.Background() // observers never join the ambient transaction of the operation under test
+	// version ids are tracked (and can be pinned by index) for versioning-Enabled buckets only; what ids a Suspended
+	// bucket hands out for its in-place null version / delete marker is not part of this model
+	vc, err := w.obs(b).GetBucketVersioningConfiguration(ctx, storage.MustNewBucketName(b))
+	if err != nil || vc.Status == nil || *vc.Status != storage.BucketVersioningStatusEnabled {
+		return
+	}
 	res, err := w.obs(b).ListObjectVersions(ctx, storage.MustNewBucketName(b), storage.ListObjectVersionsOptions{Prefix: &k, MaxKeys: 1000})
 	if err != nil {
 		return
@@ -268,7 +415,8 @@ func c24Range(tok string) *storage.ByteRange {
 	return &r
 }
 
-func (w *c24World) conds(ctx context.Context, tok string, sb, sk string, vid *string) storage.CopySourceConditions {
+func (w *c24World) conds(_ context.Context, tok string, sb, sk string, vid *string) storage.CopySourceConditions {
+	ctx := context.Background()
 	var c storage.CopySourceConditions
 	if tok == "-" || tok == "" {
 		return c
@@ -307,11 +455,15 @@ func (w *c24World) conds(ctx context.Context, tok string, sb, sk string, vid *st
 	return c
 }
 
-func c24PutOpts(meta bool) (*string, *storage.PutObjectOptions) {
-	if !meta {
+// meta: "0" nothing, "1" content type + user metadata + tags, "2" content type only
+func c24PutOpts(meta string) (*string, *storage.PutObjectOptions) {
+	if meta == "0" {
 		return nil, nil
 	}
 	ct := "text/x"
+	if meta == "2" {
+		return &ct, nil
+	}
 	return &ct, &storage.PutObjectOptions{Tags: map[string]string{"t": "1"}, Metadata: &storage.ObjectMetadata{UserMetadata: map[string]string{"m": "1"}}}
 }
 
@@ -323,10 +475,20 @@ func c24Content(tok string) string {
 }
 
 // exec runs one operation in a world and returns its canonical result token
-func (w *c24World) exec(ctx context.Context, a []string) string {
-	st := w.target
+func (w *c24World) exec(ctx context.Context, st storage.Storage, a []string) string {
 	r := "ok"
 	switch a[0] {
+	case "cbs":
+		b := storage.MustNewBucketName(a[1])
+		err := st.CreateBucket(ctx, b)
+		if err == nil {
+			en := storage.BucketVersioningStatusEnabled
+			if err = st.PutBucketVersioningConfiguration(ctx, b, &storage.BucketVersioningConfiguration{Status: &en}); err == nil {
+				su := storage.BucketVersioningStatusSuspended
+				err = st.PutBucketVersioningConfiguration(ctx, b, &storage.BucketVersioningConfiguration{Status: &su})
+			}
+		}
+		r = c24Err(err)
 	case "cb":
 		r = c24Err(st.CreateBucket(ctx, storage.MustNewBucketName(a[1])))
 	case "cbv":
@@ -347,7 +509,7 @@ func (w *c24World) exec(ctx context.Context, a []string) string {
 			}
 		}
 	case "put":
-		ct, o := c24PutOpts(a[4] == "1")
+		ct, o := c24PutOpts(a[4])
 		_, err := st.PutObject(ctx, storage.MustNewBucketName(a[1]), storage.MustNewObjectKey(a[2]), ct, strings.NewReader(c24Content(a[3])), nil, o)
 		r = c24Err(err)
 		w.learn(ctx, a[1], a[2])
@@ -376,14 +538,45 @@ func (w *c24World) exec(ctx context.Context, a []string) string {
 		if err == nil {
 			r = "H:" + v.data + ":" + v.flags
 		}
-	case "cp":
+	case "cp", "cpi":
 		sb, sk, db, dk := storage.MustNewBucketName(a[1]), storage.MustNewObjectKey(a[2]), storage.MustNewBucketName(a[3]), storage.MustNewObjectKey(a[4])
 		var opts *storage.CopyObjectOptions
 		if len(a) > 5 && !(a[5] == "-" && a[6] == "-" && a[7] == "-") {
 			vid := w.vid(a[1], a[2], a[5])
+			// the request (version id, preconditions) is fixed by the client before anything else happens
 			opts = &storage.CopyObjectOptions{SourceVersionID: vid, Range: c24Range(a[6]), CopySourceConditions: w.conds(ctx, a[7], a[1], a[2], vid)}
 		}
-		res, err := st.CopyObject(ctx, sb, sk, db, dk, opts)
+		var res *storage.CopyObjectResult
+		var err error
+		do := func() { res, err = st.CopyObject(ctx, sb, sk, db, dk, opts) }
+		if a[0] == "cpi" {
+			w.interleave(ctx, a, do)
+		} else {
+			do()
+		}
+		r = c24Err(err)
+		if err == nil {
+			r = "ok:" + w.vidx(a[1], a[2], res.SourceVersionID)
+		}
+		w.learn(ctx, a[3], a[4])
+	case "upci":
+		sb, sk, db, dk := storage.MustNewBucketName(a[1]), storage.MustNewObjectKey(a[2]), storage.MustNewBucketName(a[3]), storage.MustNewObjectKey(a[4])
+		vid := w.vid(a[1], a[2], a[5])
+		opts := &storage.UploadPartCopyOptions{SourceVersionID: vid, Range: c24Range(a[6]), CopySourceConditions: w.conds(ctx, a[7], a[1], a[2], vid)}
+		up, err := st.CreateMultipartUpload(ctx, db, dk, nil, nil, nil)
+		if err != nil {
+			w.interleave(ctx, a, func() {})
+			r = "U:" + c24Err(err)
+			break
+		}
+		var res *storage.UploadPartCopyResult
+		w.interleave(ctx, a, func() { res, err = st.UploadPartCopy(ctx, sb, sk, db, dk, up.UploadId, 1, opts) })
+		if err != nil {
+			st.AbortMultipartUpload(ctx, db, dk, up.UploadId)
+			r = c24Err(err)
+			break
+		}
+		_, err = st.CompleteMultipartUpload(ctx, db, dk, up.UploadId, nil, nil)
 		r = c24Err(err)
 		if err == nil {
 			r = "ok:" + w.vidx(a[1], a[2], res.SourceVersionID)
@@ -424,8 +617,13 @@ func (w *c24World) dump(ctx context.Context, id int, st storage.Storage) string 
 	for _, b := range bs {
 		name := b.Name.String()
 		mark := ""
-		if vc, err := st.GetBucketVersioningConfiguration(ctx, b.Name); err == nil && vc.Status != nil && *vc.Status == storage.BucketVersioningStatusEnabled {
-			mark = "!"
+		if vc, err := st.GetBucketVersioningConfiguration(ctx, b.Name); err == nil && vc.Status != nil {
+			switch *vc.Status {
+			case storage.BucketVersioningStatusEnabled:
+				mark = "!"
+			case storage.BucketVersioningStatusSuspended:
+				mark = "~"
+			}
 		}
 		res, _ := st.ListObjectVersions(ctx, b.Name, storage.ListObjectVersionsOptions{MaxKeys: 1000})
 		byKey := map[string]map[string]storage.ObjectVersion{}
@@ -445,9 +643,13 @@ func (w *c24World) dump(ctx context.Context, id int, st storage.Storage) string 
 		for _, k := range keys {
 			var vs []string
 			ids := w.order[name+"/"+k]
-			if mark == "" || len(ids) == 0 {
-				v, _ := c24View(ctx, st, b.Name, storage.MustNewObjectKey(k), nil)
-				vs = append(vs, v.data+":"+v.flags)
+			if mark != "!" || len(ids) == 0 {
+				v, err := c24View(ctx, st, b.Name, storage.MustNewObjectKey(k), nil)
+				if err != nil {
+					vs = append(vs, "DM") // the null version is a delete marker
+				} else {
+					vs = append(vs, v.data+":"+v.flags)
+				}
 			} else {
 				for i := len(ids) - 1; i >= 0; i-- {
 					ov := byKey[k][ids[i]]
@@ -487,8 +689,14 @@ func (c24) Run(in string, scratch string) Result {
 	}
 	ctx := context.Background()
 	var log []string
-	var raw [4]storage.Storage // 0..2 observers of the backings, 3 = the single reference storage
-	var dbs [4]database.Database
+	needB := strings.Contains(f[1], "cpi,") || strings.Contains(f[1], "upci,")
+	nst := 4
+	if needB {
+		nst = 5
+	}
+	var raw [5]storage.Storage // 0..2 observers of the backings, 3 = the single reference storage, 4 = second reference (interleavings)
+	var dbs [5]database.Database
+	hook := &c24Hook{}
 	newInstance := func(id int) (*c24Rec, error) {
 		// every mapping entry (and the default) is its own storage instance, as the configuration
 		// layer builds them; entries with the same id share one database
@@ -496,10 +704,10 @@ func (c24) Run(in string, scratch string) Result {
 		if err != nil {
 			return nil, err
 		}
-		return &c24Rec{Storage: ms, id: id, log: &log}, nil
+		return &c24Rec{Storage: ms, id: id, log: &log, hook: hook}, nil
 	}
-	for i := 0; i < 4; i++ {
-		db, err := sqlite.OpenDatabase(filepath.Join(scratch, "s"+strconv.Itoa(i)+".db"))
+	for i := 0; i < nst; i++ {
+		db, err := c24OpenDB(scratch, "s"+strconv.Itoa(i)+".db")
 		if err != nil {
 			return Result{Out: "SETUP-ERR " + err.Error(), Oracle: "-", Tags: []string{"setup-error"}}
 		}
@@ -531,13 +739,22 @@ func (c24) Run(in string, scratch string) Result {
 		return Result{Out: "START-ERR " + err.Error(), Oracle: "-", Tags: []string{"setup-error"}}
 	}
 	defer router.Stop(ctx)
-	if err := raw[3].Start(ctx); err != nil {
-		return Result{Out: "START-ERR " + err.Error(), Oracle: "-", Tags: []string{"setup-error"}}
+	for i := 3; i < nst; i++ {
+		if err := raw[i].Start(ctx); err != nil {
+			return Result{Out: "START-ERR " + err.Error(), Oracle: "-", Tags: []string{"setup-error"}}
+		}
+		defer raw[i].Stop(ctx)
 	}
-	defer raw[3].Stop(ctx)
-	world := &c24World{target: router, obs: func(b string) storage.Storage { return raw[routeOf(b)] }, order: map[string][]string{}}
-	// reference: the same history inside ONE storage — the specification of every copy's observable result
-	ref := &c24World{target: raw[3], obs: func(b string) storage.Storage { return raw[3] }, order: map[string][]string{}}
+	// a delegating middleware stacked above the router (its WithTransaction goes through delegator.WithTransaction)
+	stacked := corscache.NewStorageMiddleware(router)
+	world := &c24World{target: router, obs: func(b string) storage.Storage { return raw[routeOf(b)] }, order: map[string][]string{}, hook: hook}
+	// reference: the same history inside ONE storage — the specification of every copy's observable result.
+	// For an interleaved copy the reference runs the concurrent writer before the copy; the second reference runs it after.
+	ref := &c24World{target: raw[3], obs: func(b string) storage.Storage { return raw[3] }, order: map[string][]string{}, first: true}
+	var refB *c24World
+	if needB {
+		refB = &c24World{target: raw[4], obs: func(b string) storage.Storage { return raw[4] }, order: map[string][]string{}}
+	}
 
 	oracle := "OK"
 	fail := func(s string) {
@@ -546,8 +763,23 @@ func (c24) Run(in string, scratch string) Result {
 		}
 	}
 	tags := map[string]bool{}
-	var res []string
-	for _, opS := range strings.Split(f[1], ";") {
+	// every bucket must live in the backing storage it is routed to, and nowhere else
+	placement := func(when string) {
+		for i := 0; i < 3; i++ {
+			bs, err := raw[i].ListBuckets(ctx)
+			if err != nil {
+				fail("cannot list storage " + strconv.Itoa(i) + " " + when + ": " + err.Error())
+				continue
+			}
+			for _, b := range bs {
+				if routeOf(b.Name.String()) != i {
+					fail("bucket " + b.Name.String() + " exists in storage " + strconv.Itoa(i) + " " + when + " although it is routed to storage " + strconv.Itoa(routeOf(b.Name.String())))
+				}
+			}
+		}
+	}
+	// one operation through `target` (the router, or the storage handed to a transaction callback)
+	doOp := func(ctx context.Context, target storage.Storage, opS string, refs bool) string {
 		a := strings.Split(opS, ",")
 		log = log[:0]
 		allowed := map[int]map[string]bool{} // storage id -> buckets it may be asked about in this op
@@ -561,7 +793,7 @@ func (c24) Run(in string, scratch string) Result {
 		switch a[0] {
 		case "lb":
 			allowed = nil
-		case "cp", "upc":
+		case "cp", "upc", "cpi", "upci":
 			allow(a[1])
 			allow(a[3])
 		default:
@@ -569,7 +801,7 @@ func (c24) Run(in string, scratch string) Result {
 		}
 		var r string
 		if a[0] == "lb" {
-			bs, err := router.ListBuckets(ctx)
+			bs, err := target.ListBuckets(ctx)
 			r = c24Err(err)
 			if err == nil {
 				var names []string
@@ -582,23 +814,34 @@ func (c24) Run(in string, scratch string) Result {
 					}
 					seen[n] = true
 					// the bucket must live in the storage it is routed to
-					if _, err := raw[routeOf(n)].HeadBucket(ctx, b.Name); err != nil {
-						fail("ListBuckets returns " + n + " which does not exist in the storage it is routed to")
+					if refs {
+						if _, err := raw[routeOf(n)].HeadBucket(ctx, b.Name); err != nil {
+							fail("ListBuckets returns " + n + " which does not exist in the storage it is routed to")
+						}
+					} else if _, err := target.HeadBucket(ctx, b.Name); err != nil {
+						fail("ListBuckets returns " + n + " which is not reachable through the router")
 					}
 				}
 				r = "L:" + strings.Join(names, ",")
 				// ... and every bucket reachable through the router is listed
 				for _, n := range c24BucketPool {
-					if _, err := router.HeadBucket(ctx, storage.MustNewBucketName(n)); err == nil && !seen[n] {
+					if _, err := target.HeadBucket(ctx, storage.MustNewBucketName(n)); err == nil && !seen[n] {
 						fail("ListBuckets misses " + n)
 					}
 				}
 			}
 			tags["list"] = true
 		} else {
-			r = world.exec(ctx, a)
-			rr := ref.exec(ctx, a)
-			if a[0] == "cp" || a[0] == "upc" {
+			r = world.exec(ctx, target, a)
+			inter := a[0] == "cpi" || a[0] == "upci"
+			rr, rb := "", ""
+			if refs {
+				rr = ref.exec(context.Background(), ref.target, a)
+				if refB != nil {
+					rb = refB.exec(context.Background(), refB.target, a)
+				}
+			}
+			if a[0] == "cp" || a[0] == "upc" || inter {
 				cross := !sameInstance(a[1], a[3])
 				kind := "same-"
 				if cross {
@@ -616,19 +859,61 @@ func (c24) Run(in string, scratch string) Result {
 						tags[kind+"cond"] = true
 					}
 				}
+				if inter {
+					tags[kind+"interleaved-k"+a[8]] = true
+				}
 				if strings.HasPrefix(r, "ok") {
 					tags[kind+"copied"] = true
 				} else {
 					tags[kind+r] = true
 				}
-				// direct oracle: exactly the observable result of the same copy inside one storage
-				if r != rr {
-					fail(fmt.Sprintf("%s: result %s, the same copy inside one storage gives %s", opS, r, rr))
-				} else if strings.HasPrefix(r, "ok") {
-					got, e1 := c24View(ctx, raw[routeOf(a[3])], storage.MustNewBucketName(a[3]), storage.MustNewObjectKey(a[4]), nil)
-					want, e2 := c24View(ctx, raw[3], storage.MustNewBucketName(a[3]), storage.MustNewObjectKey(a[4]), nil)
-					if (e1 == nil) != (e2 == nil) || got != want {
+				db, dk := storage.MustNewBucketName(a[3]), storage.MustNewObjectKey(a[4])
+				got, e1 := c24View(ctx, raw[routeOf(a[3])], db, dk, nil)
+				matches := func(refRes string, refSt storage.Storage) bool {
+					if r != refRes {
+						return false
+					}
+					want, e2 := c24View(ctx, refSt, db, dk, nil)
+					return (e1 == nil) == (e2 == nil) && got == want
+				}
+				if !inter {
+					// direct oracle: exactly the observable result of the same copy inside one storage
+					if r != rr {
+						fail(fmt.Sprintf("%s: result %s, the same copy inside one storage gives %s", opS, r, rr))
+					} else if !matches(rr, raw[3]) {
+						want, _ := c24View(ctx, raw[3], db, dk, nil)
 						fail(fmt.Sprintf("%s: destination %v, the same copy inside one storage gives %v", opS, got, want))
+					}
+				} else {
+					// a copy racing with a writer is ONE atomic step: the outcome of "writer, then copy" or of "copy, then
+					// writer" inside one storage — or a clean failure (precondition / source gone) that leaves the destination
+					// exactly as the atomic orders that fail leave it
+					okA := matches(rr, raw[3])
+					okB := refB != nil && matches(rb, raw[4])
+					if okA {
+						tags[kind+"interleaved=writer-first"] = true
+					} else if okB {
+						tags[kind+"interleaved=copy-first"] = true
+					}
+					if !okA && !okB {
+						clean := r == "PreconditionFailed" || r == "NoSuchKey" || r == "DeleteMarker"
+						wantA, eA := c24View(ctx, raw[3], db, dk, nil)
+						untouched := false
+						if !strings.HasPrefix(rr, "ok") { // the reference did not write the destination either
+							untouched = (e1 == nil) == (eA == nil) && got == wantA
+						} else if refB != nil && !strings.HasPrefix(rb, "ok") {
+							wantB, eB := c24View(ctx, raw[4], db, dk, nil)
+							untouched = (e1 == nil) == (eB == nil) && got == wantB
+						} else {
+							// both atomic orders copy: the destination must still hold what it held before; we cannot
+							// observe "before" from the references any more, so require the failure to be clean only
+							untouched = true
+						}
+						if clean && untouched {
+							tags[kind+"interleaved=clean-failure"] = true
+						} else {
+							fail(fmt.Sprintf("%s: result %s destination %v is neither the writer-first outcome (%s) nor the copy-first outcome (%s) nor a clean failure", opS, r, got, rr, rb))
+						}
 					}
 				}
 			}
@@ -643,8 +928,78 @@ func (c24) Run(in string, scratch string) Result {
 				}
 			}
 		}
-		res = append(res, r)
+		return r
 	}
+	var res []string
+	errRollback := errors.New("c24: roll back")
+	for _, opS := range strings.Split(f[1], ";") {
+		if !strings.HasPrefix(opS, "tx") {
+			res = append(res, doOp(ctx, router, opS, true))
+			continue
+		}
+		// ---- TX element: the ops run inside WithTransaction of the router (or of a middleware stacked above it)
+		eq := strings.Index(opS, "=")
+		mode, inner := opS[:eq], strings.Split(opS[eq+1:], "/")
+		commit := strings.HasPrefix(mode, "txc")
+		var top storage.Storage = router
+		if strings.HasSuffix(mode, "s") {
+			top = stacked
+			tags["tx-stacked"] = true
+		}
+		if commit {
+			tags["tx-commit"] = true
+		} else {
+			tags["tx-rollback"] = true
+		}
+		before0 := world.dump(ctx, 0, raw[0])
+		var inRes []string
+		txErr := top.(storage.TransactionalStorage).WithTransaction(ctx, nil, func(tctx context.Context, txStorage storage.Storage) error {
+			for _, o := range inner {
+				inRes = append(inRes, doOp(tctx, txStorage, o, false))
+				// nothing is committed early to the default storage: another connection still sees the old state
+				if d := world.dump(ctx, 0, raw[0]); d != before0 {
+					fail("inside the transaction, after " + o + ", the default storage already shows " + d + " to other connections (was " + before0 + ")")
+				}
+			}
+			if !commit {
+				return errRollback
+			}
+			return nil
+		})
+		end := "ok"
+		switch {
+		case commit && txErr != nil:
+			end = c24Err(txErr)
+			fail("the enclosing transaction did not commit cleanly: " + txErr.Error())
+		case !commit && txErr != errRollback:
+			end = "ERR"
+			fail(fmt.Sprintf("the enclosing transaction did not roll back cleanly: %v", txErr))
+		case !commit:
+			end = "rb"
+			if d := world.dump(ctx, 0, raw[0]); d != before0 {
+				fail("after the rollback the default storage holds " + d + " (was " + before0 + ")")
+			}
+		}
+		placement("after " + mode)
+		// keep the reference worlds in step: what is not covered by the default storage's transaction stays
+		for _, o := range inner {
+			a := strings.Split(o, ",")
+			if a[0] == "lb" || a[0] == "head" {
+				continue
+			}
+			if commit || routeOf(a[1]) != 0 {
+				ref.exec(ctx, ref.target, a)
+				if refB != nil {
+					refB.exec(ctx, refB.target, a)
+				}
+			}
+			if len(a) > 2 {
+				world.learn(ctx, a[1], a[2])
+			}
+		}
+		res = append(res, "T["+strings.Join(inRes, "/")+"]:"+end)
+	}
+	placement("at the end")
 	out := strings.Join(res, ";") + " | " + world.dump(ctx, 0, raw[0]) + " " + world.dump(ctx, 1, raw[1]) + " " + world.dump(ctx, 2, raw[2])
 	// known-finding regions from the input alone
 	cnt := map[int]int{}
@@ -652,17 +1007,23 @@ func (c24) Run(in string, scratch string) Result {
 		cnt[id]++
 	}
 	dupCfg := cnt[0] > 0 || cnt[1] > 1 || cnt[2] > 1
-	if dupCfg && strings.Contains(";"+f[1]+";", ";lb;") {
+	hasLb := false
+	for _, e := range strings.FieldsFunc(f[1], func(r rune) bool { return r == ';' || r == '/' || r == '=' }) {
+		if e == "lb" {
+			hasLb = true
+		}
+	}
+	if dupCfg && hasLb {
 		tags["kf:C24-listbuckets-duplicates"] = true
 	}
 	hasEmpty := strings.Contains(f[1], ",E,") || strings.HasSuffix(f[1], ",E") || strings.Contains(f[1], ",E;")
 	for _, opS := range strings.Split(f[1], ";") {
 		a := strings.Split(opS, ",")
-		if a[0] == "cp" && !sameInstance(a[1], a[3]) {
+		if (a[0] == "cp" || a[0] == "cpi") && len(a) > 4 && !sameInstance(a[1], a[3]) {
 			tags["kf:C24-cross-copy-drops-metadata"] = true
 		}
 		// ranged UploadPartCopy across storages while some object of the history is empty
-		if a[0] == "upc" && !sameInstance(a[1], a[3]) && a[6] != "-" && hasEmpty {
+		if (a[0] == "upc" || a[0] == "upci") && !sameInstance(a[1], a[3]) && a[6] != "-" && hasEmpty {
 			tags["kf:C24-cross-partcopy-empty-source"] = true
 		}
 	}
@@ -688,6 +1049,7 @@ var c24Conds = []string{"imE", "imE", "imW", "imX", "nmE", "nmW", "nmX", "nmX", 
 func (c24) Gen(r *Rng, tier string, n int) []string {
 	var cases []string
 	keys := []string{"k1", "k2"}
+	metas := []string{"0", "1", "2", "2"}
 	for len(cases) < n {
 		cfg := r.Pick(c24Cfgs)
 		var ops []string
@@ -697,11 +1059,7 @@ func (c24) Gen(r *Rng, tier string, n int) []string {
 		var have []string        // bucket/key pairs that were written
 		for _, b := range c24BucketPool {
 			if r.Chance(80) {
-				if r.Chance(55) {
-					ops = append(ops, "cbv,"+b)
-				} else {
-					ops = append(ops, "cb,"+b)
-				}
+				ops = append(ops, r.Pick([]string{"cb,", "cb,", "cbv,", "cbv,", "cbs,"})+b)
 				exists[b] = true
 			}
 		}
@@ -744,18 +1102,39 @@ func (c24) Gen(r *Rng, tier string, n int) []string {
 			}
 			return vid + "," + r.Pick(c24Ranges) + "," + cond
 		}
-		nops := 8 + r.Intn(12)
+		simple := func(b, k string) string { // an operation allowed inside a transaction
+			switch x := r.Intn(12); {
+			case x < 2:
+				exists[b] = true
+				return r.Pick([]string{"cb,", "cbv,"}) + b
+			case x < 3:
+				return "db," + b
+			case x < 7:
+				wrote(b, k)
+				return fmt.Sprintf("put,%s,%s,%s,%s", b, k, r.Pick(c24Data), r.Pick(metas))
+			case x < 8:
+				wrote(b, k)
+				return fmt.Sprintf("mput,%s,%s,%s", b, k, r.Pick(c24Data))
+			case x < 9:
+				wrote(b, k)
+				return "del," + b + "," + k
+			case x < 11:
+				return "head," + b + "," + k
+			}
+			return "lb"
+		}
+		nops := 6 + r.Intn(10)
 		for i := 0; i < nops; i++ {
 			b := r.Pick(c24BucketPool)
 			k := r.Pick(keys)
-			switch x := r.Intn(26); {
+			switch x := r.Intn(30); {
 			case x < 1:
-				ops = append(ops, r.Pick([]string{"cb,", "cbv,"})+b)
+				ops = append(ops, r.Pick([]string{"cb,", "cbv,", "cbs,"})+b)
 				exists[b] = true
 			case x < 2:
 				ops = append(ops, "db,"+b)
 			case x < 7:
-				ops = append(ops, fmt.Sprintf("put,%s,%s,%s,%d", b, k, r.Pick(c24Data), r.Intn(2)))
+				ops = append(ops, fmt.Sprintf("put,%s,%s,%s,%s", b, k, r.Pick(c24Data), r.Pick(metas)))
 				wrote(b, k)
 			case x < 9:
 				ops = append(ops, fmt.Sprintf("mput,%s,%s,%s", b, k, r.Pick(c24Data)))
@@ -767,26 +1146,76 @@ func (c24) Gen(r *Rng, tier string, n int) []string {
 			case x < 12:
 				sb, sk := src()
 				ops = append(ops, fmt.Sprintf("cp,%s,%s,%s,%s", sb, sk, r.Pick(c24BucketPool), r.Pick(keys)))
-			case x < 18:
+			case x < 17:
 				sb, sk := src()
 				db, dk := r.Pick(c24BucketPool), r.Pick(keys)
 				ops = append(ops, fmt.Sprintf("cp,%s,%s,%s,%s,%s", sb, sk, db, dk, opts(sb, sk)))
 				wrote(db, dk)
-			case x < 22:
+			case x < 20:
 				sb, sk := src()
 				db, dk := r.Pick(c24BucketPool), r.Pick(keys)
 				ops = append(ops, fmt.Sprintf("upc,%s,%s,%s,%s,%s", sb, sk, db, dk, opts(sb, sk)))
 				wrote(db, dk)
-			case x < 24:
+			case x < 22:
 				sb, sk := src()
 				h := "head," + sb + "," + sk
 				if r.Chance(50) {
 					h += "," + strconv.Itoa(1+r.Intn(nver[sb+"/"+sk]+1))
 				}
 				ops = append(ops, h)
+			case x < 26 && !strings.Contains(cfg, ":0"):
+				// a transaction around 1-5 operations; not with a mapping entry that shares the default's database
+				// (its own connection would wait for the ambient write transaction)
+				var in []string
+				for j := 0; j <= r.Intn(5); j++ {
+					in = append(in, simple(r.Pick(c24BucketPool), r.Pick(keys)))
+				}
+				ops = append(ops, r.Pick([]string{"txc", "txr", "txc", "txr", "txcs", "txrs"})+"="+strings.Join(in, "/"))
 			default:
 				ops = append(ops, "lb")
 			}
+		}
+		// at most one copy racing with a writer, as the last mutating operation of the history
+		if r.Chance(60) {
+			sb, sk := src()
+			if !exists[sb] {
+				for b := range exists {
+					sb = b
+				}
+			}
+			m0 := r.Pick([]string{"0", "2"})
+			d0 := r.Pick(c24Data)
+			if r.Chance(85) {
+				if r.Chance(25) {
+					ops = append(ops, fmt.Sprintf("mput,%s,%s,%s", sb, sk, d0))
+				} else {
+					ops = append(ops, fmt.Sprintf("put,%s,%s,%s,%s", sb, sk, d0, m0))
+				}
+				wrote(sb, sk)
+			}
+			db, dk := r.Pick(c24BucketPool), r.Pick(keys)
+			for db == sb && dk == sk {
+				dk = r.Pick(keys)
+				db = r.Pick(c24BucketPool)
+			}
+			wr := "del"
+			switch x := r.Intn(10); {
+			case x < 3: // same bytes (same ETag), other content type
+				wr = "put:" + d0 + ":" + map[string]string{"0": "2", "2": "0"}[m0]
+			case x < 7:
+				wr = "put:" + r.Pick(c24Data) + ":" + r.Pick([]string{"0", "2"})
+			case x < 8:
+				wr = "mput:" + r.Pick(c24Data)
+			}
+			// no time preconditions here: whether the racing writer lands in the source's Last-Modified second is a
+			// property of the wall clock, not of the code
+			vid := "-"
+			if r.Chance(30) {
+				vid = strconv.Itoa(1 + r.Intn(nver[sb+"/"+sk]+1))
+			}
+			o := vid + "," + r.Pick([]string{"-", "-", "-", "0:4", ":3", "2:", "0:100"}) + "," + r.Pick([]string{"-", "-", "imE", "imE", "imW", "imX", "nmX", "nmE", "nmW", "imE+nmX"})
+			ops = append(ops, fmt.Sprintf("%s,%s,%s,%s,%s,%s,%d,%s", r.Pick([]string{"cpi", "cpi", "upci"}), sb, sk, db, dk, o, 1+r.Intn(3), wr))
+			ops = append(ops, "head,"+db+","+dk, "head,"+sb+","+sk)
 		}
 		cases = append(cases, cfg+" "+strings.Join(ops, ";"))
 	}
